@@ -33,7 +33,7 @@ def family_mp(M, P, shared=False):
 
 
 def gen_stats_case(rng, M, P, N, scalar="f64", weights=None, noise=0.05, quant=None, probs=None, ctor="new", faults=None,
-                   builder_made=False, patience=None, cfg=None, qbits=10, shared=False):
+                   builder_made=False, patience=None, cfg=None, qbits=10, shared=False, yscale=None):
     basis, (lo, hi) = family_mp(M, P, shared=shared)
     shared = shared and M >= 2 and P == 2
     # well separated parameters keep the normal matrix H^T H reasonably conditioned (otherwise most cases are skipped)
@@ -59,6 +59,12 @@ def gen_stats_case(rng, M, P, N, scalar="f64", weights=None, noise=0.05, quant=N
     c = {"scalar": scalar, "ctor": ctor, "model": spec, "faults": faults, "build": [["obs", N, [[]]]], "ops": [],
          "meta": {"family": "mp%d%d" % (M, P), "N": N, "M": M, "P": P, "S": 1, "weights": weights or "none", "range": [lo, hi]}}
     synth_observations(rng, c, truth, noise=noise, qbits=qbits)
+    if yscale is not None:
+        # the same data in other units (an exact power of two): every statistic scales with it exactly
+        for o in c["build"]:
+            if o[0] == "obs":
+                o[2] = [[hx(unhx(h) * yscale, scalar) for h in col] for col in o[2]]
+        c["meta"]["yscale_log2"] = int(round(__import__("math").log2(yscale)))
     if weights and weights != "none":
         w = [1.0] * N if weights == "unit" else [rng.choice([0.5, 3.0, 0.25, 2.5])] * N if weights == "const" else [dyadic(rng, 0.5, 3, 2) for _ in range(N)]
         if weights in ("tiny", "huge"):
